@@ -264,8 +264,36 @@ func C02Scenarios(tier string) []*h.Scenario {
 	trig.Groups[0].Opts.ScaleOnStarve = true
 	trig.Groups[0].Opts.MaxNodeAge = "15m"
 	trig.Groups[0].Opts.MaxNodes, trig.Groups[0].ASG.Max = 14, 16 // room for more than one scale-up
+	// a one-node scale-up from a group sitting exactly at min_nodes = 4 whose new instance takes four
+	// scans to register: two cordons inside the window put the group below its minimum by more than the
+	// amount already requested (seeded change C02-o)
+	sf := mk("c02.setdesired.shortfall", false, false)
+	sf.Groups[0].Opts.MinNodes = 4
+	gs := sf.Groups[0]
+	sf.Init = func(hh *h.Hist) {
+		a := InitASGs(hh)[0]
+		for i := 0; i < 4; i++ {
+			nd := hh.W.AddNode(a, sim.NodeOpt{Age: time.Duration(10+i) * Q})
+			if i < 3 {
+				hh.W.AddPod(podOn(gs, nd.Name, 1000))
+			}
+		}
+	}
+	sf.Script = func(hh *h.Hist, slot int) {
+		if slot < 4 {
+			hh.SkipSettle = true
+		}
+	}
+	sf.Events = func(hh *h.Hist, slot int) []h.Event {
+		var ev []h.Event
+		for _, n := range groupNodes(hh, gs, 4) {
+			ev = append(ev, evCordon(n.Name, !n.Spec.Unschedulable))
+		}
+		return append(ev, evExtraTick(1), evRestart())
+	}
 	return []*h.Scenario{
 		zero,
+		sf,
 		short,
 		off,
 		frac,
